@@ -91,9 +91,11 @@ func runThreshold(t *testing.T, rc *RunCtx) {
 	var reqs []*reqRec
 	mkOp := func(nd *Node, duty int) *Op {
 		e := *duties[duty]
-		switch ch.Pick(5, 0) {
+		switch ch.Pick(6, 0) {
 		case 0, 1:
 			e.AddrKey = shareKey[nd]
+		case 5: // the share key followed by junk bytes (resolves to the same account)
+			e.AddrKey = append(append([]byte{}, shareKey[nd]...), make([]byte, 1+ch.Pick(2, 0))...)
 		case 2:
 			e.AddrKey = gen.PubKey // the validator (composite) key; it does not resolve on the unchanged tree
 		default:
